@@ -147,6 +147,46 @@ func (g *gen) opNFTTransfer() bool {
 }
 
 // opMulti: MultiESDTNFTTransfer with 1..4 items incl. repeated (token, nonce), mixed kinds, aliasing ids.
+// opRepeatOverdraw: ONE multi transfer that lists the same (token, nonce) twice, each quantity within the holding (and
+// the first strictly below it), their sum above it - to a same-shard and to a cross-shard destination. The second item
+// meets the holding the first one left: the call is refused.
+func (g *gen) opRepeatOverdraw() bool {
+	x, ok := g.pickHeld(func(a []byte, h holding) bool { return h.val.Cmp(big.NewInt(3)) >= 0 && h.val.BitLen() < 60 })
+	if !ok {
+		return false
+	}
+	q := new(big.Int).Add(new(big.Int).Rsh(x.h.val, 1), big.NewInt(1)).Bytes() // val/2 + 1
+	for _, same := range []bool{true, false} {
+		var b []byte
+		if same {
+			b = g.otherThan(x.a, g.sameShard(x.a))
+		} else {
+			b = g.otherThan(x.a, g.otherShard(x.a))
+		}
+		if b == nil {
+			continue
+		}
+		g.do(g.user(oracle.FnMultiTransfer, x.a, x.a, bigGas, b, be(2), x.h.tok, x.h.nb(), q, x.h.tok, x.h.nb(), q))
+	}
+	return true
+}
+
+// opWideNonceOnFungible: the four NFT functions that work on the caller's own entry, called by the holder of an ordinary
+// FUNGIBLE balance (with the roles) with a nonce argument wider than 64 bits whose low 64 bits are zero: the nonce is 0,
+// there is no NFT - refused, never a nil dereference.
+func (g *gen) opWideNonceOnFungible() bool {
+	x, ok := g.pickHeld(isFung)
+	if !ok {
+		return false
+	}
+	g.setRoles(x.a, x.h.tok, oracle.RoleNFTAddQty, oracle.RoleNFTBurn, oracle.RoleNFTAddURI, oracle.RoleNFTUpdateAtt)
+	wide := [][]byte{two64.Bytes(), new(big.Int).Lsh(big.NewInt(1), 65).Bytes(), new(big.Int).Lsh(big.NewInt(1), 72).Bytes(), make([]byte, 9)}
+	for _, fn := range []string{oracle.FnNFTAddURI, oracle.FnNFTUpdate, oracle.FnNFTAddQty, oracle.FnNFTBurn} {
+		g.do(g.user(fn, x.a, x.a, bigGas, x.h.tok, wide[g.r.Intn(len(wide))], []byte{1}))
+	}
+	return true
+}
+
 func (g *gen) opMulti() bool {
 	x, ok := g.pickHeld(anyPos)
 	if !ok {
